@@ -45,6 +45,13 @@ Theorem C34_prop_of_model : forall i, wf_C34 i = true -> prop_C34 i (run_C34 i) 
 Proof. exact prop_C34_of_model. Qed.
 Print Assumptions C34_prop_of_model.
 
+(* wf_C34 holds of the corpus cases corpus/C34/live.case (live script with a shrink; unit-level split scenario). *)
+Example C34_wf_corpus :
+  wf_C34 (VL [VZ 7; VL [VL [VZ 5; VZ 100000]; VL [VZ 1; VZ 1; VZ 200000]; VL [VZ 5; VZ 4465]; VL [VZ 4; VZ 0; VZ 1000000]]]) = true /\
+  wf_C34 (VL [VL [VZ 5; VZ 0; VZ 10]; VL [VZ 6; VZ 4]; VL [VZ 1; VZ 1; VZ 6];
+              VL [VZ 2; VL [VZ 1; VZ 1; VZ 7; VZ 9; VZ 1]]; VL [VZ 3]; VL [VZ 3]; VL [VZ 5; VZ 1; VZ 20]; VL [VZ 3]]) = true.
+Proof. exact wf_corpus_examples. Qed.
+
 (* Step form: a non-empty DATA frame returned by take (any choice c) is no longer than the stream window, the
    connection window and maxFrameSize of the state it is taken from, and both windows shrink by exactly its
    length (no int32 wrap). *)
